@@ -238,6 +238,8 @@ func (c *fctx) expr(e ast.Expr) (lx, error) {
 				return lx{s: "(-" + a.s + ")", t: a.t}, nil
 			case kSigned:
 				return lx{s: fmt.Sprintf("(Go.wrapS %d (-%s))", a.t.bits, a.s), t: a.t}, nil
+			case kUnsigned:
+				return lx{s: fmt.Sprintf("((%s - %s) %% %s)", pow2(a.t.bits), a.s, pow2(a.t.bits)), t: a.t}, nil
 			}
 		case token.ADD:
 			return a, nil
@@ -824,6 +826,22 @@ func (c *fctx) callExpr(x *ast.CallExpr) (lx, error) {
 		}
 	}
 	if id, ok := x.Fun.(*ast.Ident); ok {
+		if cb, ok := c.cbs[c.info.Uses[id]]; ok && (cb.kind == "recv0" && len(x.Args) == 0 || cb.kind == "recv1" && len(x.Args) == 1 && c.rootObj(x.Args[0]) == c.recv) && c.recv != nil &&
+			c.info.Uses[id].Type().Underlying().(*types.Signature).Results().Len() == 1 {
+			// `fn()` used for its result: the call is hoisted in front of the statement (it runs on,
+			// and returns, the receiver); short-circuit operands are rejected by the caller
+			rt, err := c.typeOf(x)
+			if err != nil {
+				return lx{}, err
+			}
+			rn := c.names[c.recv]
+			r := c.fresh("r")
+			c.pre = append(c.pre, fmt.Sprintf("let (%s, %s) ← %s %s", rn, r, c.names[c.info.Uses[id]], rn))
+			if rt.k == kBool {
+				return mkBoolV(r), nil
+			}
+			return lx{s: r, t: rt}, nil
+		}
 		if cb, ok := c.cbs[c.info.Uses[id]]; ok && cb.kind == "source" {
 			var as []string
 			for _, a := range x.Args {
